@@ -2276,7 +2276,8 @@ namespace awkward {
                  nextcontent.get()->getitem_next(nexthead,
                                                  nexttail,
                                                  nextadvanced),
-                 array.shape());
+                 array.shape(),
+                 lenstarts);
       }
       else {
         return nextcontent.get()->getitem_next(nexthead,
